@@ -325,7 +325,21 @@ def history(draw):
         init = {"kind": "FSArray", "h": h, "w": w, "fmt": draw(FMT), "fmt_positional": draw(st.booleans())}
     ops = []
     for _ in range(draw(st.integers(0, 10))):
-        k = draw(st.integers(0, 10))
+        k = draw(st.integers(0, 11))
+        if k == 11:
+            # repaint: an earlier assignment is made again to the same region with the same characters - as plain str, or in
+            # other formatting ("the region shows the assigned rows": the old formatting must go)
+            prev_sets = [o for o in ops if o["op"] == "set" and o.get("block") and all("ref" not in b for b in o["block"])]
+            if not prev_sets:
+                continue
+            o = prev_sets[draw(st.integers(0, len(prev_sets) - 1))]
+            how = draw(st.integers(0, 2))
+            block = []
+            for b in o["block"]:
+                text = b["str"] if "str" in b else "".join(t for t, _ in b["desc"])
+                block.append({"str": text} if how == 0 else {"desc": [[text, {}]]} if how == 1 else {"desc": [[text, draw(gen.atts(allow_false=False))]]})
+            ops.append({"op": "set", "r0": o["r0"], "r1": o["r1"], "c0": o["c0"], "c1": o["c1"], "block": block, "as": "list"})
+            continue
         if k == 10 and w >= 4:
             # macro: a row is filled, a short FmtStr row object goes into a wider region of it (the library pads it), then the
             # very same object is assigned again into a region exactly as wide as the object was
